@@ -169,6 +169,28 @@ def _expand_mv(ref, mv):
     return out
 
 
+class Dep:
+    """A multivector derived from two draggable points.  In the ordinary form it is given to the widget as a lambda; in the
+    ganja.js-style single-root-function form it is computed in the BODY of the root function (so it only follows a drag if the
+    widget calls the root function again)."""
+
+    def __init__(self, a, b, op):
+        self.a, self.b, self.op = a, b, op
+
+    def value(self):
+        return getattr(self.a, self.op)(self.b)
+
+
+def _resolve(o):
+    if isinstance(o, Dep):
+        return o.value()
+    if isinstance(o, list):
+        return [_resolve(x) for x in o]
+    if isinstance(o, tuple):
+        return tuple(_resolve(x) for x in o)
+    return o
+
+
 class Scene:
     def __init__(self, case):
         self.case = case
@@ -196,7 +218,7 @@ class Scene:
             return items if t == "list" else tuple(items)
         if t == "callable":
             v = self._obj(spec["value"])
-            f = lambda: v
+            f = lambda: _resolve(v)
             if spec["depth"] == 2:
                 g = f
                 f = lambda: g
@@ -206,6 +228,8 @@ class Scene:
             if self.case["tops"][spec["i"]]["shape"] or self.case["tops"][spec["j"]]["shape"]:
                 return "dependent-callable-skipped"     # array-valued operands of different trailing shapes do not combine
             op = spec["op"]
+            if self.case["rootfunc"]:
+                return Dep(a, b, op)
             return lambda: getattr(a, op)(b)
         raise HarnessError(t)
 
@@ -214,6 +238,8 @@ class Scene:
         """list of decoded items that object `o` contributes to its parent list."""
         if isinstance(o, kd.MultiVector):
             return _expand_mv(self.ref, o)
+        if isinstance(o, Dep):
+            return self.expected(o.value())
         if isinstance(o, (list, tuple)):
             return [[x for item in o for x in self.expected(item)]]
         if callable(o):
@@ -271,7 +297,7 @@ def evaluate(case):
     rootfunc = case["rootfunc"]
     if rootfunc:
         subj_list = sc.subjects
-        root = lambda: subj_list
+        root = lambda: _resolve(subj_list)     # derived multivectors are computed in the body of the root function
         try:
             w = alg.graph(root, **options)
         except Exception as e:
@@ -324,14 +350,14 @@ def evaluate(case):
     if case["steps"]:
         idxs = list(w.draggable_points_idxs)
         pre = sc.subjects
-        exp_idxs = [j for j, s in enumerate(pre) if isinstance(s, kd.MultiVector) and
+        view = _resolve(pre) if rootfunc else pre      # what the widget sees at the first level
+        exp_idxs = [j for j, s in enumerate(view) if isinstance(s, kd.MultiVector) and
                     (not (ref.sig.count(0) == 1 and d in (3, 4)) or tuple(sorted({pc(k) for k in s.keys()})) == (d - 1,))]
-        if rootfunc:
-            exp_idxs = exp_idxs
         if idxs != exp_idxs:
             raise Violation("drag", "draggable_points_idxs", f"draggable_points_idxs = {idxs}, the multivectors at the first level sit at {exp_idxs}")
-        model = {j: dict(zip(pre[j].keys(), [float(v) for v in pre[j].values()])) for j in idxs}
-        ids = {j: id(pre[j]) for j in idxs}
+        persistent = [j for j in idxs if isinstance(pre[j], kd.MultiVector)]     # derived first-level values are not dragged
+        model = {j: dict(zip(pre[j].keys(), [float(v) for v in pre[j].values()])) for j in persistent}
+        ids = {j: id(pre[j]) for j in persistent}
         cidx = {k: i for i, k in enumerate(ref.canon_keys)}
         for step in case["steps"]:
             if step["k"] == "update":
@@ -341,14 +367,17 @@ def evaluate(case):
                     raise Violation("drag", "update_mvs", f"update_mvs raised {type(e).__name__}: {e}", exc=type(e).__name__)
                 check_payload("after update_mvs")
                 continue
-            if not idxs:
+            if not persistent:
                 continue
             # the front end sends the CURRENT element of every draggable point; the dragged one(s) carry new values
-            moved = [idxs[step["which"] % len(idxs)]]
-            if step["also"] and len(idxs) > 1:
-                moved.append(idxs[(step["which"] + 1) % len(idxs)])
+            moved = [persistent[step["which"] % len(persistent)]]
+            if step["also"] and len(persistent) > 1:
+                moved.append(persistent[(step["which"] + 1) % len(persistent)])
             payload = []
             for j in idxs:
+                if j not in model:
+                    payload.append({"mv": _expand_mv(ref, pre[j].value())[0]})     # derived value as currently displayed
+                    continue
                 if j in moved:
                     vec = [float(frac(v)) + (0.25 if j != moved[0] else 0.0) for v in step["vals"]]
                     for k in model[j]:
@@ -364,7 +393,7 @@ def evaluate(case):
             except Exception as e:
                 raise Violation("drag", "draggable_points", f"assigning the drag update raised {type(e).__name__}: {e}", exc=type(e).__name__)
             ndrags += 1
-            for j in idxs:
+            for j in persistent:
                 obj = pre[j]
                 if id(obj) != ids[j] or (sc.subjects[j] is not obj):
                     raise Violation("drag", "in-place", f"subject {j} was replaced instead of being updated in place")
